@@ -46,6 +46,10 @@ pub struct Case {
     pub pdu_idx0: u8,
     /// First build, send and complete a frame full of 0xFF in the same slot (stale-byte leakage).
     pub prefill: bool,
+    /// Previous life of the slot: a short request whose response came back longer than the request
+    /// (as much 0xEE behind it as the slot holds); the receive side stores all of it
+    #[serde(default)]
+    pub prefill_long_response: bool,
     pub pushes: Vec<Push>,
 }
 
@@ -81,12 +85,14 @@ pub fn case_with_size(frame_size: u16) -> impl Strategy<Value = Case> + Clone {
     (
         prop_oneof![3 => Just(0u8), 1 => any::<u8>(), 1 => 250u8..=255],
         prop::bool::weighted(0.3),
+        prop::bool::weighted(0.25),
         prop::collection::vec(push_strategy(cap), 1..=40),
     )
-        .prop_map(move |(pdu_idx0, prefill, pushes)| Case {
+        .prop_map(move |(pdu_idx0, prefill, long, pushes)| Case {
             frame_size,
             pdu_idx0,
-            prefill,
+            prefill: prefill && !long,
+            prefill_long_response: long && frame_size >= 32,
             pushes,
         })
 }
@@ -126,8 +132,13 @@ pub fn run_case(case: &Case, info: &mut CaseInfo) -> Result<(), Fail> {
     );
 
     if case.prefill {
-        prefill_slot(&mut tx, &mut rx, pdu_loop, frame_size)?;
+        prefill_slot(&mut tx, &mut rx, pdu_loop, frame_size, false)?;
         info.label("prefill");
+    }
+
+    if case.prefill_long_response {
+        prefill_slot(&mut tx, &mut rx, pdu_loop, frame_size, true)?;
+        info.label("prefill-response-longer-than-request");
     }
 
     let mut model = Model {
@@ -423,11 +434,12 @@ fn prefill_slot(
     rx: &mut ethercrab::PduRx<'_>,
     pdu_loop: &ethercrab::PduLoop<'_>,
     frame_size: usize,
+    long_response: bool,
 ) -> Result<(), Fail> {
     // SAFETY of lifetimes: everything is dropped before returning.
     let pdu_loop: &ethercrab::PduLoop<'_> = pdu_loop;
     let cap = frame_size - 16;
-    let payload = vec![0xffu8; cap - 12];
+    let payload = if long_response { vec![0xffu8; 2] } else { vec![0xffu8; cap - 12] };
 
     let mut f = verif::alloc_frame(pdu_loop).map_err(|e| Fail::new("harness", format!("prefill alloc {e:?}")))?;
 
@@ -444,6 +456,7 @@ fn prefill_slot(
         rx: &mut ethercrab::PduRx<'_>,
         pdu_loop: &'a ethercrab::PduLoop<'a>,
         payload: &[u8],
+        grow_to: Option<usize>,
     ) -> Result<(), Fail> {
         let mut fut = std::pin::pin!(f.mark_sendable(pdu_loop, Duration::from_secs(10), 0));
         let sf = tx
@@ -457,7 +470,19 @@ fn prefill_slot(
         })
         .map_err(|e| Fail::new("harness", format!("prefill send {e:?}")))?;
 
-        let resp = wire::make_response(&sent, &[payload.to_vec()], &[0xffff]);
+        let mut resp = wire::make_response(&sent, &[payload.to_vec()], &[0xffff]);
+
+        if let Some(cap) = grow_to {
+            // the response comes back longer than the request: junk behind the datagram, and a
+            // length field that covers it
+            let have = resp.len() - 16;
+
+            resp.extend(std::iter::repeat_n(0xeeu8, cap - have));
+
+            let hdr = (cap as u16 & 0x07ff) | 0x1000;
+
+            resp[14..16].copy_from_slice(&hdr.to_le_bytes());
+        }
 
         rx.receive_frame(&resp)
             .map_err(|e| Fail::new("harness", format!("prefill rx {e:?}")))?;
@@ -480,5 +505,5 @@ fn prefill_slot(
     }
 
     // Shrink the lifetime of the loop reference to a local one (PduLoop is covariant).
-    go(f, h, tx, rx, pdu_loop, &payload)
+    go(f, h, tx, rx, pdu_loop, &payload, if long_response { Some(cap) } else { None })
 }
